@@ -615,7 +615,10 @@ pub fn unused(_: &BTreeMap<u8, u8>) {}
 
 pub fn check_c12(ctx: &Ctx) -> i32 {
     let report = Report::new("C12");
-    let s = c12_sequential(ctx, &report, ctx.secs(30.0, 300.0));
+    let s = c12_sequential(ctx, &report, ctx.secs(25.0, 240.0));
+    // the "whatever other threads are writing meanwhile" clause: a writer appending into its
+    // region's reserve against compact(), every interleaving up to the pre-emption bound
+    let conc = crate::c_sched::check_c12_concurrent(ctx, &report, ctx.secs(15.0, 150.0));
     if s.stats.get("punches") == 0 {
         report.inconclusive("no hole punch was observed (file system refused PUNCH_HOLE or nothing was punchable)");
     }
@@ -636,6 +639,7 @@ pub fn check_c12(ctx: &Ctx) -> i32 {
         "events_by_kind": events_json(&s.stats),
         "max_dirty_pages": s.max_dirty,
         "histories_aborted_on_model_mismatch": s.stats.get("history_aborted_on_model_mismatch"),
+        "concurrent_writer_vs_compact": conc,
     });
     report.finish(ctx, "fault_enumeration", coverage, &ASSUMPTIONS)
 }
